@@ -39,8 +39,9 @@ def parse_kv(s):
 
 
 class Unit:
-    def __init__(self, name):
+    def __init__(self, name, auto_external=False):
         self.name = name
+        self.auto_external = auto_external   # auto-extracted callees as external_body (no contract)
         self.path = os.path.join(VERIF, 'units', name + '.rs')
         self.sources = {}
         self.manifest = []
@@ -69,14 +70,97 @@ class Unit:
             self.out_lines.append(ln)
             self.origin.append(origin)
 
+    def _auto_callees(self, src, container, text, depth=0):
+        """Functions of the same impl/trait or file that `text` calls and that the unit does not
+        define: extracted verbatim WITHOUT a contract (callers then see no postcondition)."""
+        from .rustlex import lex, sig
+        from .extract import list_fns
+        out_methods, out_free = [], []
+        if depth > 4:
+            return out_methods, out_free
+        st = sig(lex(text))
+        same = set(list_fns(src, container)) if container else set()
+        free = set()
+        from .extract import _iter_items
+        for k, nm, first, bo, bc in _iter_items(src.st, 0, len(src.st)):
+            if k == 'fn':
+                free.add(nm)
+        for i, t in enumerate(st):
+            if t.kind != 'ident' or i + 1 >= len(st) or st[i + 1].text != '(' or i == 0:
+                continue
+            name = t.text
+            if name in self.defined or not (name[0].islower() or name[0] == '_'):
+                continue
+            prev = st[i - 1].text
+            prev2 = st[i - 2].text if i >= 2 else ''
+            prev3 = st[i - 3].text if i >= 3 else ''
+            is_method = (prev == '.' and prev2 == 'self') or (prev == ':' and prev2 == ':' and prev3 == 'Self')
+            if is_method and name in same:
+                self.defined.add(name)
+                ft = FnText(src, container, name)
+                ft.drop_prints()
+                txt = ('#[verifier::external_body]\n' if self.auto_external else '') + ft.render()
+                self.manifest.append(dict(ft.manifest(), op='auto-extracted callee (no contract)'))
+                self.auto_extracted.append('%s :: %s (%s)' % (container, name, src.display))
+                out_methods.append(txt)
+                m2, f2 = self._auto_callees(src, container, txt, depth + 1)
+                out_methods += m2
+                out_free += f2
+            elif prev not in ('.', ':', 'fn') and (name in free or self._imported_from(src, name)):
+                self.defined.add(name)
+                fsrc = src if name in free else self._imported_from(src, name)
+                ft = FnText(fsrc, None, name)
+                ft.drop_prints()
+                txt = ('#[verifier::external_body]\n' if self.auto_external else '') + ft.render()
+                self.manifest.append(dict(ft.manifest(), op='auto-extracted callee (no contract)'))
+                self.auto_extracted.append('%s (%s)' % (name, fsrc.display))
+                out_free.append(txt)
+                m2, f2 = self._auto_callees(fsrc, None, txt, depth + 1)
+                out_free += m2 + f2
+        return out_methods, out_free
+
+    def _imported_from(self, src, name):
+        """If `src` imports the free function `name` with `use crate::a::b::{.., name, ..}`, the Source of
+        src/a/b.rs (or src/a/b/mod.rs); else None."""
+        for m in re.finditer(r'use\s+crate::([\w:]+?)::(?:\{([^}]*)\}|(\w+))\s*;', src.text):
+            names = [x.strip().split(' as ')[0].strip() for x in (m.group(2) or m.group(3) or '').split(',')]
+            if name in names:
+                rel = m.group(1).replace('::', '/')
+                for cand in ('src/%s.rs' % rel, 'src/%s/mod.rs' % rel):
+                    pth = os.path.join(REPO, cand)
+                    if os.path.exists(pth):
+                        try:
+                            fs = self.src({'file': cand})
+                            from .extract import _iter_items
+                            if any(k == 'fn' and nm == name for k, nm, a, b, c in _iter_items(fs.st, 0, len(fs.st))):
+                                return fs
+                        except ExtractError:
+                            pass
+        return None
+
     def assemble(self):
         lines = open(self.path, encoding='utf-8').read().split('\n')
+        self.defined = set(re.findall(r'\bfn\s+(\w+)', '\n'.join(lines)))
+        self.defined |= set(re.findall(r'\bfn=(\w+)', '\n'.join(lines)))
+        for inc in re.findall(r'//@ INCLUDE (\S+)', '\n'.join(lines)):
+            try:
+                self.defined |= set(re.findall(r'\bfn\s+(\w+)', open(os.path.join(VERIF, inc)).read()))
+            except OSError:
+                pass
+        self.auto_extracted = []
+        free_slot = None
+        free_fns = []
         i = 0
         pending_props = None
         fmt_slot = None
         while i < len(lines):
             ln = lines[i]
             s = ln.strip()
+            if s.startswith('//@ AUTO-FREE-FNS'):
+                free_slot = len(self.out_lines)
+                self.emit('', 'generated:auto-extracted free functions')
+                i += 1
+                continue
             if s.startswith('//@ FORMAT-MACRO'):
                 fmt_slot = len(self.out_lines)
                 self.emit('', 'generated:format-macro')
@@ -216,6 +300,17 @@ class Unit:
                     self.assumptions.append('ASSUMED contract (external_body, body extracted verbatim but not verified): %s in %s' % (kv['fn'], src.display))
                 self.emit(txt, 'repo:%s:%s' % (src.display, kv['fn']))
                 end = len(self.out_lines)
+                if not is_block or True:
+                    am, af = self._auto_callees(src, kv.get('in'), txt)
+                    for t2 in am:
+                        if kv.get('in'):
+                            self.emit(t2, 'repo:%s:auto-extracted callee' % src.display)
+                            self.extracted_text.append(t2)
+                        else:
+                            af.append(t2)
+                    for t2 in af:
+                        free_fns.append(t2)
+                        self.extracted_text.append(t2)
                 self.extracted_text.append(txt)
                 man = ft.manifest()
                 self.manifest.append(man)
@@ -235,6 +330,13 @@ class Unit:
                     pending_props = None
             self.emit(ln, 'unit:%s:%d' % (os.path.basename(self.path), i + 1))
             i += 1
+        if free_fns:
+            if free_slot is None:
+                raise ExtractError('the code now calls free function(s) the unit does not define and the unit has no //@ AUTO-FREE-FNS slot')
+            self.out_lines[free_slot] = ' '.join(t.replace('\n', ' ') for t in free_fns) if False else ''
+            # keep line numbering stable: splice as ONE physical line per function is not possible (comments) — append at the slot
+            # by replacing the slot line with the joined text of all free functions on one logical block
+            self.out_lines[free_slot] = '\n'.join(free_fns)
         # format! arms (M1)
         if fmt_slot is not None:
             arms, notes = self.format_arms()
